@@ -1,4 +1,4 @@
-\* Batcher q4: s1 = send,send,send; f1 = async tokio flush (no timeout); f2 = flush callback that blocks the receiver until released; Cap 1, MaxRetry 10 (hard-coded by bounded()), <= 1 processor faults, TRUE remainders, receiver kill FALSE; idle spinning cut at 3 ms. Exhaustive.
+\* Batcher q4: s1 = send,send,send; s2 = raw when_empty callback; f1 = async tokio flush (no timeout); f2 = flush callback that blocks the receiver until released; Cap 1, MaxRetry 10 (hard-coded by bounded()), <= 1 processor faults, TRUE remainders, receiver kill FALSE; idle spinning cut at 3 ms. Exhaustive.
 SPECIFICATION Spec
 CONSTANTS
     SenderOps <- Q4_SenderOps
